@@ -312,6 +312,21 @@ def isTree (L : Levels) : Bool :=
 def distinguishes (c : Cfg) : Bool :=
   c.L.all fun l => c.L.all fun m => c.matchP l (c.promptOf m.name) == (l.name == m.name)
 
+/-- every level's matcher accepts the prompt the device shows in that level -/
+def recognises (c : Cfg) : Bool :=
+  c.L.all fun l => c.matchP l (c.promptOf l.name)
+
+/-- the prompt of mode `m` is unambiguous: no other level's matcher accepts it -/
+def unambB (c : Cfg) (m : Bytes) : Bool :=
+  c.L.all fun l => !c.matchP l (c.promptOf m) || l.name == m
+
+/-- levels whose prompt is ambiguous (e.g. `configuration` / `configuration-exclusive`, both
+`router(config)#`) have at most one neighbour in the graph, so they are never an interior node of
+a path: while passing through a level the cache is `UNKNOWN` and cannot break the tie -/
+def ambigLeaf (c : Cfg) : Bool :=
+  c.L.all fun m => unambB c m.name ||
+    (neighbours c.L m.name).all fun x => (neighbours c.L m.name).all fun y => x == y
+
 /-- the transition commands available in one mode are unambiguous and not empty: sibling escalate
 commands differ, and no child's escalate equals the mode's own deescalate -/
 def cmdsOK (L : Levels) : Bool :=
